@@ -5,4 +5,5 @@ From Dashu Require Import Base.Prelude Float.RoundSpec Float.Contract Float.Mode
    called (DESIGN section 6, named in TRUSTED_BASE of props/C11.py). *)
 Extract Constant ClassicalDedekindReals.sig_forall_dec => "(fun _ -> assert false)".
 Extraction "model.ml" check_exp check_expm1 check_ln check_ln1p check_powi check_powf
+  loose_exp loose_expm1 loose_ln loose_ln1p loose_powi loose_powf
   exp_entry ln_entry ln_entry_before_fix powi_entry powf_entry normalize dlen feq.
